@@ -3,7 +3,7 @@
    All statements are for every layer state (every kind, every field value), every value, every history length.
 
    [cfg] selects the code that is modelled: [fixed_cfg] = the tree with the three repairs of this property
-   (commits e50ee06, fc57e39, ee5faa2), [orig_cfg] = the tree before them.  Theorems quantified over [c] hold for
+   (commits e50ee06, fc57e39, ee5faa2) and the constructor repair cc4d99c, [orig_cfg] = the tree before them.  Theorems quantified over [c] hold for
    both; the [_refuted] theorems about [orig_cfg] document the original defects F-C16-1/2/3. *)
 From PsdV Require Import Base.Prelude Attrs.Model Attrs.Proofs.
 
@@ -26,7 +26,7 @@ Theorem get_set_fixed : forall a v s s',
 Proof. intros a v s s' D H. eapply Proofs.get_set; [exact H|apply Proofs.guard_fixed; exact D]. Qed.
 Print Assumptions get_set_fixed.
 
-Definition ex_pixel : layer := new_pixel false [76; 97] 2 3 4 3 0 0 77.
+Definition ex_pixel : layer := new_pixel orig_cfg false [76; 97] 2 3 4 3 0 0 77.
 Definition ex_group : layer := new_group fixed_cfg [71] true 5.
 Definition ex_fill : layer :=
   mkLayer KFill true [70] (Some [70]) false true 8 255 bm_norm false 0 0 0 0 None (Some 0) (Some 171) 32 32 box0 true 9.
@@ -74,10 +74,27 @@ Theorem new_group_fixed : forall n o p,
 Proof. exact Proofs.new_group_fixed. Qed.
 Print Assumptions new_group_fixed.
 
-Theorem new_pixel_ok : forall att n t l w h dw dh p,
-  divider_ok (new_pixel att n t l w h dw dh p) = true /\ divider_signed (new_pixel att n t l w h dw dh p) = true.
+Theorem new_pixel_ok : forall c att n t l w h dw dh p,
+  divider_ok (new_pixel c att n t l w h dw dh p) = true /\ divider_signed (new_pixel c att n t l w h dw dh p) = true.
 Proof. exact Proofs.new_pixel_ok. Qed.
 Print Assumptions new_pixel_ok.
+
+(* since /repo commit cc4d99c a layer created with ANY name shorter than 256 characters reads that name and has a
+   record name that save can write (F-C19-3 before: the raw name went into the record) *)
+Theorem new_group_name_writable : forall n o p, Z.of_nat (length n) < 256 ->
+  name_writable (new_group fixed_cfg n o p) = true /\ get AName (new_group fixed_cfg n o p) = VStr n.
+Proof. exact Proofs.new_group_name_writable. Qed.
+Print Assumptions new_group_name_writable.
+
+Theorem new_pixel_name_writable : forall att n t l w h dw dh p, Z.of_nat (length n) < 256 ->
+  name_writable (new_pixel fixed_cfg att n t l w h dw dh p) = true /\
+  get AName (new_pixel fixed_cfg att n t l w h dw dh p) = VStr n.
+Proof. exact Proofs.new_pixel_name_writable. Qed.
+Print Assumptions new_pixel_name_writable.
+
+Theorem new_name_unwritable_refuted : exists n, name_writable (new_group orig_cfg n true 0) = false.
+Proof. exists [1046]. reflexivity. Qed.
+Print Assumptions new_name_unwritable_refuted.
 
 (* ---------------------------------------------------------------- 2. which edits are accepted *)
 (* acceptance depends on the attribute, the value and the kind only: name < 256 characters, opacity in 0..255,
